@@ -79,6 +79,7 @@ func init() {
 		// loop values the optimiser turns into re-run values (unoptimised: rebuilt per entry)
 		fixed = append(fixed, loopRerunTable()...)
 		fixed = append(fixed, iteratorValuePrograms()...)
+		fixed = append(fixed, yieldOperandTable()...)
 		spec := &diffSpec{
 			profiles: []*profile{controlFlowProfile(), effectProfile(), scopingProfile(), delegationProfile(), bystanderProfile()}, batchSize: 30, batches: rs.vol(20, 500),
 			fixed: fixed,
